@@ -51,6 +51,14 @@ type c29Slot struct {
 	Worker int  `json:"worker"` // worker that holds the session
 	TTLms  int  `json:"ttl_ms"` // 150..400 (short) or 60000 (long)
 	Pre    bool `json:"pre"`    // opened in the sequential prologue
+	// CloseMode is how the session state object behaves when the framework closes it: 0 = Close returns nil,
+	// 1 = Close returns an error, 2 = Close panics. The registry tolerates both ("panics and errors are
+	// suppressed so eviction is never blocked by a misbehaving state"); the property quantifies over every
+	// session, including the well-behaved neighbours of a misbehaving one.
+	CloseMode int `json:"close_mode,omitempty"`
+	// Group > 0: the slot belongs to a group of sessions that end together (one reaper sweep / one Shutdown).
+	// Members of an expiry group are left alone by the history until the sweep has had time to run.
+	Group int `json:"group,omitempty"`
 }
 
 type c29Op struct {
@@ -92,8 +100,9 @@ type c29Case struct {
 // ---------------------------------------------------------------- generator
 
 type c29Gen struct {
-	t *rapid.T
-	c *c29Case
+	t      *rapid.T
+	c      *c29Case
+	groups int
 }
 
 func (g *c29Gen) newClient() int {
@@ -117,6 +126,7 @@ func (g *c29Gen) slot(pre bool, short bool) int {
 	if short {
 		s.TTLms = rapid.IntRange(150, 400).Draw(g.t, "ttl")
 	}
+	s.CloseMode = []int{0, 0, 0, 0, 0, 1, 2, 2}[rapid.IntRange(0, 7).Draw(g.t, "closemode")]
 	g.c.Slots = append(g.c.Slots, s)
 	return len(g.c.Slots) - 1
 }
@@ -128,6 +138,23 @@ func (g *c29Gen) own(slot int, kind string) c29Op {
 
 func (g *c29Gen) delay() int { return rapid.IntRange(0, 4000).Draw(g.t, "delay_us") }
 
+// group adds 2-6 pre-opened sessions of one worker that will end together. Their owners and Close behaviours are
+// drawn independently, but at least one state's Close panics and at least one is well behaved.
+func (g *c29Gen) group(short bool) (worker int, slots []int) {
+	g.groups++
+	worker = rapid.IntRange(0, g.c.Workers-1).Draw(g.t, "gworker")
+	n := rapid.IntRange(2, 6).Draw(g.t, "gsize")
+	for i := 0; i < n; i++ {
+		s := g.slot(true, short)
+		g.c.Slots[s].Worker, g.c.Slots[s].Group = worker, g.groups
+		slots = append(slots, s)
+	}
+	bad := rapid.IntRange(0, n-1).Draw(g.t, "gbad")
+	good := (bad + 1 + rapid.IntRange(0, n-2).Draw(g.t, "ggood")) % n
+	g.c.Slots[slots[bad]].CloseMode, g.c.Slots[slots[good]].CloseMode = 2, 0
+	return
+}
+
 func genC29(t *rapid.T) c29Case {
 	c := c29Case{
 		Workers: rapid.IntRange(1, 3).Draw(t, "workers"),
@@ -136,7 +163,7 @@ func genC29(t *rapid.T) c29Case {
 	g := &c29Gen{t: t, c: &c}
 	nt := rapid.IntRange(1, 4).Draw(t, "ntemplates")
 	for i := 0; i < nt; i++ {
-		switch k := rapid.IntRange(0, 26).Draw(t, "template"); {
+		switch k := rapid.IntRange(0, 29).Draw(t, "template"); {
 		case k < 3: // a second request arrives while the first holds the session and then closes it
 			s := g.slot(true, false)
 			x, y := g.newClient(), g.newClient()
@@ -206,6 +233,10 @@ func genC29(t *rapid.T) c29Case {
 			}
 		case k < 8: // DELETE arrives while a handler holds the session
 			s := g.slot(true, false)
+			if rapid.Bool().Draw(t, "delbadstate") {
+				// the DELETE closes a state whose Close panics while other calls are queued on the session's lock
+				c.Slots[s].CloseMode = 2
+			}
 			x, d, y := g.newClient(), g.newClient(), g.newClient()
 			dID := fmt.Sprintf("c%d.0", d)
 			holdOn := dID
@@ -432,6 +463,46 @@ func genC29(t *rapid.T) c29Case {
 			cont.Cancel = rapid.Bool().Draw(t, "fcowncancel")
 			g.add(x, cont)
 			g.add(x, g.own(s, "use"))
+		case k == 27: // several sessions expire in ONE reaper sweep, some of them with a state whose Close panics / fails
+			_, slots := g.group(true)
+			maxTTL := 0
+			for _, s := range slots {
+				if c.Slots[s].TTLms > maxTTL {
+					maxTTL = c.Slots[s].TTLms
+				}
+			}
+			z := g.newClient()
+			// the reaper ticks once a second from the worker's first request; nobody touches the group before that
+			g.add(z, c29Op{Kind: "sleep", SleepMs: maxTTL + 1100, Why: "expire-group"})
+			for _, s := range rapid.Permutation(slots).Draw(t, "gorder") {
+				op := g.own(s, []string{"use", "use", "delete"}[rapid.IntRange(0, 2).Draw(t, "gkind")])
+				op.Why = "expire-group"
+				g.add(z, op)
+			}
+		case k >= 28: // several sessions are live when the operator calls Shutdown, some of them with a state whose Close panics / fails
+			w, slots := g.group(false)
+			d := g.newClient()
+			drainFirst := rapid.Bool().Draw(t, "gdrainfirst")
+			sdID := fmt.Sprintf("c%d.%d", d, map[bool]int{false: 0, true: 1}[drainFirst]) // the Shutdown op
+			var after *c29Cond
+			if rapid.Bool().Draw(t, "ginflight") {
+				// one member's handler is still running when Shutdown is called
+				x := g.newClient()
+				op := g.own(slots[rapid.IntRange(0, len(slots)-1).Draw(t, "gheld")], "use")
+				op.Why = "shutdown-group"
+				op.Hold = &c29Cond{Op: sdID, Ev: "done", DelayUs: g.delay()}
+				after = &c29Cond{Op: g.add(x, op), Ev: "handler"}
+			}
+			if drainFirst {
+				g.add(d, c29Op{Kind: "drain", Worker: w, After: after, Why: "shutdown-group"})
+				after = nil
+			}
+			g.add(d, c29Op{Kind: "shutdown", Worker: w, After: after, Why: "shutdown-group"})
+			for _, s := range rapid.Permutation(slots).Draw(t, "gorder") {
+				op := g.own(s, []string{"use", "use", "delete"}[rapid.IntRange(0, 2).Draw(t, "gkind")])
+				op.Why = "shutdown-group"
+				g.add(d, op)
+			}
 		default: // open inside the history: plain, without Accept, panicking after opening, slow
 			o := g.newClient()
 			ns := g.slot(false, rapid.IntRange(0, 3).Draw(t, "pshort") == 0)
@@ -457,7 +528,7 @@ func genC29(t *rapid.T) c29Case {
 	for i := 0; i < nf; i++ {
 		var pre []int
 		for si, s := range c.Slots {
-			if s.Pre {
+			if s.Pre && !(s.Group > 0 && s.TTLms < 60000) { // an expiry group is left alone until its sweep
 				pre = append(pre, si)
 			}
 		}
@@ -474,7 +545,7 @@ func genC29(t *rapid.T) c29Case {
 		}
 		g.add(cl, op)
 	}
-	c.ReaperWait = rapid.IntRange(0, 9).Draw(t, "reaperwait") == 0
+	c.ReaperWait = rapid.IntRange(0, 19).Draw(t, "reaperwait") == 0
 	return c
 }
 
@@ -489,14 +560,25 @@ type c29Event struct {
 	Info string
 }
 
+const c29ClosePanic = "c29: this state's Close panics"
+
 type c29State struct {
 	rc   *c29Run
 	slot int
+	mode int // c29Slot.CloseMode
 }
 
+// Close records that it ran and then behaves as the slot's CloseMode says. Whatever it does, the framework has
+// invoked it: the oracle counts invocations.
 func (s *c29State) Close() error {
 	s.rc.rec("", "close_begin", s.slot, "")
 	s.rc.rec("", "close_end", s.slot, "")
+	switch s.mode {
+	case 1:
+		return errors.New("c29: this state's Close fails")
+	case 2:
+		panic(c29ClosePanic)
+	}
 	return nil
 }
 
@@ -510,6 +592,25 @@ type c29Run struct {
 	chans   map[string]chan struct{}
 	tokens  map[int]string
 	workers []*vgirpc.HttpServer
+	// panicSeen is set as soon as a panic escaped ServeHTTP or Shutdown: the case is a violation from then on, so
+	// the run need not sit out the full hang bound for requests the panic may have stranded.
+	panicSeen atomic.Int64 // UnixNano of the first one, 0 = none
+}
+
+func (rc *c29Run) notePanic() { rc.panicSeen.CompareAndSwap(0, time.Now().UnixNano()) }
+
+// shutdown calls the operator's Shutdown of one worker; a panic reaching the operator's goroutine is recorded.
+func (rc *c29Run) shutdown(op string, w int) {
+	rc.rec(op, "shutdown_begin", -1, strconv.Itoa(w))
+	rc.signal(op, "sent")
+	defer rc.rec(op, "shutdown_done", -1, strconv.Itoa(w))
+	defer func() {
+		if rv := recover(); rv != nil {
+			rc.notePanic()
+			rc.rec(op, "shutdown_panic", -1, fmt.Sprintf("worker %d: %v", w, rv))
+		}
+	}()
+	rc.workers[w].DrainHandle().Shutdown()
 }
 
 func (rc *c29Run) rec(op, kind string, slot int, info string) c29Event {
@@ -568,6 +669,7 @@ type c29Script struct {
 	Act       string   `json:"act"`
 	Slot      int      `json:"slot"`
 	TTLms     int      `json:"ttl_ms"`
+	CloseMode int      `json:"close_mode,omitempty"`
 	Panic     bool     `json:"panic,omitempty"`
 	ThenClose bool     `json:"then_close,omitempty"`
 	Hold      *c29Cond `json:"hold,omitempty"`
@@ -595,7 +697,7 @@ func (rc *c29Run) handler(_ context.Context, ctx *vgirpc.CallContext, p lib.Scri
 		rc.rec(s.Op, "hstart", -1, "open")
 		rc.signal(s.Op, "handler")
 		defer rc.rec(s.Op, "hend", -1, "open")
-		st := &c29State{rc: rc, slot: s.Slot}
+		st := &c29State{rc: rc, slot: s.Slot, mode: s.CloseMode}
 		if err := ctx.OpenSession(st, time.Duration(s.TTLms)*time.Millisecond); err != nil {
 			rc.rec(s.Op, "open_failed", s.Slot, errKindOf(err))
 			return "", err
@@ -622,6 +724,7 @@ func (rc *c29Run) handler(_ context.Context, ctx *vgirpc.CallContext, p lib.Scri
 		defer rc.rec(s.Op, "hend", st.slot, "use")
 		rc.wait(s.Hold)
 		if s.ThenClose {
+			rc.rec(s.Op, "closesession_begin", st.slot, "")
 			hit := ctx.CloseSession()
 			rc.rec(s.Op, "closesession", st.slot, strconv.FormatBool(hit))
 		}
@@ -923,7 +1026,7 @@ func (rc *c29Run) do(op c29Op) (res c29Result) {
 		rc.signal(op.ID, "sent")
 		resp = lib.DoHTTP(h, "DELETE", "/__session__", hdr, nil)
 	} else {
-		sc := c29Script{Op: op.ID, Act: op.Kind, Slot: op.Slot, TTLms: slot.TTLms, Panic: op.Panic, ThenClose: op.ThenClose, Hold: op.Hold}
+		sc := c29Script{Op: op.ID, Act: op.Kind, Slot: op.Slot, TTLms: slot.TTLms, CloseMode: slot.CloseMode, Panic: op.Panic, ThenClose: op.ThenClose, Hold: op.Hold}
 		b, _ := json.Marshal(sc)
 		body := lib.BuildRequest("s_op", lib.ScriptBatch(string(b)), lib.ReqOpts{RequestID: op.ID})
 		e := rc.rec(op.ID, "send", op.Slot, op.Kind)
@@ -932,6 +1035,9 @@ func (rc *c29Run) do(op c29Op) (res c29Result) {
 		resp = lib.PostArrow(h, "/s_op", body, hdr)
 	}
 	res.Status, res.Panic = resp.Status, resp.Panic
+	if resp.Panic != "" {
+		rc.notePanic()
+	}
 	res.Token = resp.Header.Get("VGI-Session")
 	if op.Kind != "delete" && resp.Decoded != nil {
 		if streams, err := lib.SplitStreams(resp.Decoded); err == nil {
@@ -1032,6 +1138,7 @@ func raceDelta(out *lib.Outcome, id string, before int64) {
 const (
 	c29Hung       = 60 * time.Second // all harness waits are bounded by c29CondTimeout, so nothing of ours blocks this long
 	c29Quiescence = 20 * time.Second
+	c29AfterPanic = 15 * time.Second // once a panic has escaped (already a violation): how long to wait for the rest of the history
 )
 
 func runC29(c c29Case) (out lib.Outcome) {
@@ -1078,10 +1185,7 @@ func runC29(c c29Case) (out lib.Outcome) {
 					rc.workers[op.Worker].DrainHandle().Drain()
 					rc.rec(op.ID, "drain_done", -1, strconv.Itoa(op.Worker))
 				case "shutdown":
-					rc.rec(op.ID, "shutdown_begin", -1, strconv.Itoa(op.Worker))
-					rc.signal(op.ID, "sent")
-					rc.workers[op.Worker].DrainHandle().Shutdown()
-					rc.rec(op.ID, "shutdown_done", -1, strconv.Itoa(op.Worker))
+					rc.shutdown(op.ID, op.Worker)
 				default:
 					r := rc.do(op)
 					resMu.Lock()
@@ -1097,9 +1201,7 @@ func runC29(c c29Case) (out lib.Outcome) {
 	}
 	done := make(chan struct{})
 	go func() { wg.Wait(); close(done) }()
-	select {
-	case <-done:
-	case <-time.After(c29Hung):
+	pendingOps := func() []string {
 		var pending []string
 		resMu.Lock()
 		for id, op := range ops {
@@ -1109,8 +1211,43 @@ func runC29(c c29Case) (out lib.Outcome) {
 		}
 		resMu.Unlock()
 		sort.Strings(pending)
-		out.Violate("C29/request-never-returned", "%v after every harness gate had timed out, requests are still blocked inside the server: %v", c29Hung, pending)
-		return
+		return pending
+	}
+	hung := time.After(c29Hung)
+	poll := time.NewTicker(200 * time.Millisecond)
+	defer poll.Stop()
+wait:
+	for {
+		select {
+		case <-done:
+			break wait
+		case <-hung:
+			out.Violate("C29/request-never-returned", "%v after every harness gate had timed out, requests are still blocked inside the server: %v", c29Hung, pendingOps())
+			return
+		case <-poll.C:
+			// a panic that escaped ServeHTTP / Shutdown already makes this case a violation; the time bound below only
+			// decides how long the run keeps waiting for the requests that panic may have stranded
+			if at := rc.panicSeen.Load(); at != 0 && time.Since(time.Unix(0, at)) > c29AfterPanic {
+				var where []string
+				resMu.Lock()
+				for id, r := range results {
+					if r.Panic != "" {
+						where = append(where, fmt.Sprintf("%s (%s): %s", id, ops[id].Kind, lib.Short(r.Panic, 200)))
+					}
+				}
+				resMu.Unlock()
+				rc.mu.Lock()
+				for _, e := range rc.events {
+					if e.Kind == "shutdown_panic" {
+						where = append(where, "Shutdown "+e.Info)
+					}
+				}
+				rc.mu.Unlock()
+				sort.Strings(where)
+				out.Violate("C29/panic-escaped", "a panic escaped the server (%v) and %v later requests of the history are still blocked inside it: %v", where, c29AfterPanic, pendingOps())
+				return
+			}
+		}
 	}
 
 	// epilogue 1: no lock left held — a fresh use of every still-live session returns
@@ -1171,10 +1308,8 @@ func runC29(c c29Case) (out lib.Outcome) {
 	}
 
 	// epilogue 3: final shutdown of every worker
-	for w, hs := range rc.workers {
-		rc.rec("final", "shutdown_begin", -1, strconv.Itoa(w))
-		hs.DrainHandle().Shutdown()
-		rc.rec("final", "shutdown_done", -1, strconv.Itoa(w))
+	for w := range rc.workers {
+		rc.shutdown("final", w)
 	}
 	// give a Close that was started by a concurrent closer just before the shutdown a moment to finish
 	time.Sleep(2 * time.Millisecond)
@@ -1292,7 +1427,7 @@ func judgeC29(c c29Case, ops map[string]c29Op, results map[string]c29Result, eve
 			}
 		case "close_begin":
 			closeBeginEv[e.Slot] = append(closeBeginEv[e.Slot], e)
-		case "closesession":
+		case "closesession", "closesession_begin":
 			selfClosers[e.Op] = true
 		}
 	}
@@ -1340,6 +1475,89 @@ func judgeC29(c c29Case, ops map[string]c29Op, results map[string]c29Result, eve
 			if !ok {
 				out.Violate("C29/closesession-hit-without-close", "op %s: CloseSession returned true on slot %d but Close had not run; %s", cl.Op, slot, history(slot))
 			}
+		}
+	}
+
+	// (3b) nothing a state object does in Close reaches the operator: Shutdown returns normally
+	for _, e := range events {
+		if e.Kind == "shutdown_panic" {
+			// root cause: a session state's own panic travelling through the registry, or a panic the framework raised itself
+			cause := "framework"
+			if strings.Contains(e.Info, c29ClosePanic) {
+				cause = "state-close"
+			}
+			out.Label("shutdown-panicked:" + cause)
+			out.Violate(lib.Keyf("C29", "panic-escaped-shutdown", cause), "DrainHandle.Shutdown() (%s) let a panic escape to its caller: %s; Close counts per slot: %v", e.Op, lib.Short(e.Info, 300), closeBegins)
+		}
+	}
+
+	// classification of the Close behaviours and of the "several sessions end together" schedules
+	firstTouch := map[int]int{} // slot -> seq of the first request bearing it that a client goroutine sent
+	for _, e := range sends {
+		if _, seen := firstTouch[e.Slot]; !seen && !strings.HasPrefix(e.Op, "pre.") && !strings.HasPrefix(e.Op, "post.") {
+			firstTouch[e.Slot] = e.Seq
+		}
+	}
+	type span struct{ lo, hi int }
+	shutdowns := map[int][]span{} // worker -> [begin, done] of every Shutdown a client goroutine issued
+	open := map[string]int{}
+	for _, e := range events {
+		switch {
+		case e.Kind == "shutdown_begin" && e.Op != "final":
+			open[e.Op+"/"+e.Info] = e.Seq
+		case e.Kind == "shutdown_done" && e.Op != "final":
+			w, _ := strconv.Atoi(e.Info)
+			shutdowns[w] = append(shutdowns[w], span{open[e.Op+"/"+e.Info], e.Seq})
+		}
+	}
+	type tally struct{ good, bad []time.Time }
+	together := func(t *tally) bool { // a well-behaved and a panicking state closed within one sweep / one Shutdown (sweeps are 1 s apart)
+		for _, a := range t.good {
+			for _, b := range t.bad {
+				if d := a.Sub(b); d > -200*time.Millisecond && d < 200*time.Millisecond {
+					return true
+				}
+			}
+		}
+		return false
+	}
+	swept, downed := map[int]*tally{}, map[int]*tally{}
+	for si, sl := range c.Slots {
+		if closeBegins[si] == 0 {
+			continue
+		}
+		out.Label([]string{"close-mode:ok", "close-mode:error", "close-mode:panics"}[sl.CloseMode])
+		if sl.Group == 0 {
+			continue
+		}
+		at, atT := closeBeginEv[si][0].Seq, closeBeginEv[si][0].T
+		bump := func(m map[int]*tally) {
+			if m[sl.Group] == nil {
+				m[sl.Group] = &tally{}
+			}
+			if sl.CloseMode == 2 {
+				m[sl.Group].bad = append(m[sl.Group].bad, atT)
+			} else if sl.CloseMode == 0 {
+				m[sl.Group].good = append(m[sl.Group].good, atT)
+			}
+		}
+		if ft, touched := firstTouch[si]; sl.TTLms < 60000 && (!touched || at < ft) {
+			bump(swept) // closed before anybody presented it again: by the reaper's sweep
+		}
+		for _, sp := range shutdowns[sl.Worker] {
+			if at > sp.lo && at < sp.hi {
+				bump(downed)
+			}
+		}
+	}
+	for _, t := range swept {
+		if together(t) {
+			out.Label("expiry-sweep:mixed-group")
+		}
+	}
+	for _, t := range downed {
+		if together(t) {
+			out.Label("shutdown:mixed-group")
 		}
 	}
 
@@ -1527,6 +1745,9 @@ func judgeC29(c c29Case, ops map[string]c29Op, results map[string]c29Result, eve
 				continue
 			}
 			out.Label(fmt.Sprintf("delete:%d", r.Status))
+			if r.Status == http.StatusNoContent && c.Slots[op.Slot].CloseMode == 2 {
+				out.Label("delete:204:close-panics")
+			}
 		case "open":
 			_, ok := openedBy[id]
 			// (7) new sessions are refused while draining
@@ -1590,13 +1811,15 @@ var propC29 = lib.Prop[c29Case]{
 	Rule: "concurrent histories over 1-3 workers sharing a token key and 2-5 identities (anonymous, two principals in one domain, the same principal in another domain, authenticated with an empty principal): session slots opened in a sequential prologue or inside the history (with/without VGI-Session-Accept, panicking after opening), " +
 		"client goroutines running use / slow use (handler held on a harness gate) / use-then-CloseSession / DELETE / wait-past-TTL / drain / shutdown, tokens presented by other identities, at other workers and bit-flipped; " +
 		"producer and exchange stream calls bearing the session (/init + /exchange continuations, producer batch limit 1) whose init handler and every Produce/Exchange turn record an interval on the session state and can be held on a gate (and then return an error or panic) while another request bearing the session is fired; continuations and cancels of such a stream presented by another identity, at another worker, with a bit-flipped session token or without the session header; " +
-		"barriers force 'second request arrives while the first holds the session', 'close completes while another waits', 'open after Drain returned'. Oracle: invariants over the recorded history (see DESIGN C29). " +
+		"every session's state object has a drawn Close behaviour (returns nil / returns an error / panics — both tolerated by the registry's contract); groups of 2-6 sessions of one worker with at least one panicking and one well-behaved state expire untouched in one reaper sweep or are live at a client-issued Shutdown (optionally after Drain, optionally with a member's handler still running), and DELETE closes a panicking state with calls queued behind it; " +
+		"barriers force 'second request arrives while the first holds the session', 'close completes while another waits', 'open after Drain returned'. Oracle: invariants over the recorded history (see DESIGN C29), Close counted per session whatever Close then does, no panic escapes ServeHTTP or Shutdown. " +
 		"Non-trivial: at least two requests bearing the same session overlapped in time.",
 	Gen: genC29,
 	Run: runC29,
 	Essential: []string{"overlap", "use:ok", "use:lost", "foreign:ident", "foreign:garbled", "open:while-draining", "delete:204", "expired:sent-after-ttl", "open:ok", "stream-init:ok:s29_prod", "stream-init:ok:s29_exch", "stream-continue:ok:s29_prod", "stream-continue:ok:s29_exch",
 		"foreign-continue:ident", "foreign-continue:garbled", "foreign-continue:nosession", "foreign-cancel", "stream-cancel:ok", "stream-stage:error", "stream-stage:panic",
-		"foreign:ident-other-domain", "foreign:ident-empty-principal-vs-anonymous", "use:ok-live"},
+		"foreign:ident-other-domain", "foreign:ident-empty-principal-vs-anonymous", "use:ok-live",
+		"close-mode:panics", "close-mode:error", "expiry-sweep:mixed-group", "shutdown:mixed-group", "delete:204:close-panics"},
 	EssentialMin: 60,
 	Assumptions: []string{
 		"schedules are sampled (random + barrier-forced), not enumerated; every barrier has a 1.5 s fallback so a slow machine can only miss an interleaving",
